@@ -9,7 +9,8 @@ def check(ctx):
     ctx.rule("C17.K3", "no handler / __exit__ on the calling thread's path absorbs KeyboardInterrupt")
     ctx.rule("C17.K4", "the sentinel's priority in the default scheduler is strictly below every node priority")
     ctx.rule("C17.K5", "the observer's __exit__ sets the done event then joins its update thread; run holds it in one with")
-    ctx.assume("only an interrupt delivered while the calling thread is inside queue.join() is considered; a second interrupt during cleanup is not")
+    ctx.rule("C17.K6", "an exception on the calling thread while the pool is still starting its workers (the first worker is already executing calls) releases the started workers - stop flag, sentinels - before they are joined")
+    ctx.assume("an interrupt is considered at every point of the calling thread between the first thread start and the return of run; a second interrupt during cleanup is not")
     r = E.discover(ctx.model)
     rr = R.discover(ctx.model, r)
     ctx.run(E.rule_interrupt_cleanup, "C17.K1", r)
@@ -24,3 +25,4 @@ def check(ctx):
     ctx.run(rule_exit_not_truthy, "C17.K3")
     ctx.run(rule_finally_clean, "C17.K3", [rr.run, rr.apply, rr.stale, rr.run_physical, r.engine, r.pool])
     ctx.run(E.rule_first_error, "C17.K3", r)
+    ctx.run(E.rule_startup_interrupt, "C17.K6", r)
